@@ -191,6 +191,19 @@ impl Monitor for C09 {
         if aux == "all" {
             obs.count("classes_tested_on_all_scalar_values");
         }
+        // the class as the whole, unanchored pattern: the search loop filters start positions by
+        // the class's own set (the anchored form above never takes that path)
+        if let Ok(Ok(ru)) = engine::compile(&text, &c.flags, c.dialect) {
+            for ch in chars.iter().step_by(if aux == "all" { 101 } else { 3 }) {
+                buf.clear();
+                buf.push(*ch);
+                let exp = class_match(&ce, *ch, ci);
+                if engine::is_match(&ru, &buf).ok() != Some(exp) {
+                    return Outcome::Violated(vec![Finding::new("class_membership_differs_unanchored", format!("engine: U+{:04X} with the bare class as pattern: {}", *ch as u32, !exp), format!("set algebra: {}", exp))]);
+                }
+            }
+            obs.count("unanchored_class_checked");
+        }
         // equivalences: quantified / grouped class = class alone; [c] = c
         let nonmember = chars.iter().copied().find(|x| !class_match(&ce, *x, ci));
         if let Some(m) = members.first() {
@@ -389,6 +402,21 @@ impl Monitor for C10 {
         obs.add("members_seen", n_in);
         if aux == "all" {
             obs.count("escapes_tested_on_all_scalar_values");
+        }
+        // the same escape as the whole (unanchored) pattern, without and with flag i: the search loop
+        // filters start positions by the escape's own set, and flag i does not change what a
+        // category, block or name-character escape matches
+        for fl in ["", "i"] {
+            if let Ok(Ok(ru)) = engine::compile(p, fl, c.dialect) {
+                for ch in chars.iter().step_by(if aux == "all" { 53 } else { 2 }) {
+                    buf.clear();
+                    buf.push(*ch);
+                    if engine::is_match(&ru, &buf).ok() != Some(oracle(*ch)) {
+                        return Outcome::Violated(vec![Finding::new("escape_membership_differs_unanchored", format!("engine: U+{:04X} with the bare escape as pattern, flags {:?}: {}", *ch as u32, fl, !oracle(*ch)), format!("data: {}", oracle(*ch)))]);
+                    }
+                }
+                obs.count("unanchored_escape_checked");
+            }
         }
         // the same escape inside a class expression
         if let Ok(Ok(r2)) = engine::compile(&format!("^[{}]$", p), "", c.dialect) {
